@@ -20,7 +20,7 @@ VERIF = os.path.dirname(HERE)
 
 CRATES = {
     'gneiss-mqtt': {'dir': 'gneiss-mqtt', 'harness_dir': 'gneiss_mqtt', 'features': []},
-    'gneiss-mqtt-aws': {'dir': 'gneiss-mqtt-aws', 'harness_dir': 'gneiss_mqtt_aws', 'features': []},
+    'gneiss-mqtt-aws': {'dir': 'gneiss-mqtt-aws', 'harness_dir': 'gneiss_mqtt_aws', 'features': ['threaded-rustls']},
 }
 
 
